@@ -133,9 +133,11 @@ def units(tier, seed):
     subs = [("f", "C(k)"), ("f", "T(f, 'fb')"), ("f", "S(f)"), ("f", "C(f, Sum)"), ("f", "T(f, ref='fc')"),
             ("x", "scale(x)"), ("x", "poly(x, 2)"), ("x", "bs(x, df=4)"), ("x", "center(x)")]
     tup_c = [list(p) for n_ in (1, 2, 3) for p in itertools.permutations(["f", "g", "x"], n_)]
+    tup_n = [list(p) for n_ in (1, 2, 3) for p in itertools.permutations(["f", "x", "z"], n_)]  # numeric-only interactions too
     for var, atom in subs:
         block = []
-        fams = [[t] for t in tup_c] + [[t1, t2] for t1 in tup_c for t2 in tup_c if set(t1) != set(t2)]
+        tc = tup_c if var == "f" else tup_c + [t for t in tup_n if "z" in t]
+        fams = [[t] for t in tc] + [[t1, t2] for t1 in tc for t2 in tc if set(t1) != set(t2) and not ("g" in t1 + t2 and "z" in t1 + t2)]
         for fam in fams:
             if not any(var in t for t in fam):
                 continue
